@@ -60,12 +60,18 @@ def build(width, nbytes, rng):
     return pad + body if rng.random() < 0.5 else body + pad
 
 
-def trunc_cases(run, name, backend=None):
+def trunc_cases(run, name, backend=None, ident=None):
     import passlib.exc as X
     if not select_backend(run, name, backend):
         return
+    if ident is None and H.base_name(H.get(name)) == "bcrypt" and name == "bcrypt":
+        # every ident the hasher can write (the legacy $2$ layout is emulated by repeating the password first)
+        for ident_ in (("2", "2b") if run.tier == "quick" else ("2", "2a", "2y", "2b")):
+            trunc_cases(run, name, backend, ident_)
+            run.count(f"bcrypt_ident:{ident_}")
+        return
     from passlib.context import CryptContext
-    rng = run.rng("trunc:" + name)
+    rng = run.rng("trunc:" + name + (ident or ""))
     h = H.get(name)
     limit = h.truncate_size
     kw = cheap(h)
@@ -80,7 +86,11 @@ def trunc_cases(run, name, backend=None):
     sites["hasher.using-twice-string"] = (lambda te: h.using(truncate_error=not te, **kw).using(truncate_error="true" if te else "false"), None)
     sites["context-over-configured-hasher"] = (lambda te: CryptContext(schemes=[h.using(truncate_error=not te, **kw)], truncate_error=te), "ctx")
     widths = [1, 2] if name == "lmhash" else [1, 2, 3, 4]
-    deltas = [-1, 0, 1, 2, 3, 9] if run.tier == "quick" else [-3, -2, -1, 0, 1, 2, 3, 4, 7, 9, 30]
+    deltas = [-1, 0, 1, 2, 3, 9, 450] if run.tier == "quick" else [-3, -2, -1, 0, 1, 2, 3, 4, 7, 9, 30, 450, 1000]
+    if name == "lmhash" or "cisco" in name:
+        deltas = [d for d in deltas if d < 100]
+    if ident:
+        kw = dict(kw, ident=ident)
     for site, (mk, kind) in sites.items():
         for te in (True, False):
             try:
@@ -168,6 +178,10 @@ def trunc_cases(run, name, backend=None):
                                                     checks.append(("character-at-limit-changed", alt_raw, alt_raw[:limit] == raw[:limit]))
                                             break
                                         off += wch
+                                if ident == "2":
+                                    # the legacy $2$ layout cycles a short key up to 72 bytes (documented equivalence): expectations follow that rule
+                                    from vlib.equiv import canon
+                                    checks = [(lab, pr, canon("bcrypt", pr, None, "$2$") == canon("bcrypt", raw, None, "$2$")) for lab, pr, _ in checks]
                                 for label, probe, expect in checks:
                                     if name == "lmhash":
                                         try:
